@@ -43,6 +43,8 @@ def patch_tokens(name, mi):
         "trail_label": ["o", "L:tl_%d" % mi],
         "trail_label_data": ["d:1", "L:tl_%d" % mi],
         "string": ["d:3"],
+        "lead_align4": ["L:pl_%d" % mi, "o"],
+        "lead_align16": ["L:pl_%d" % mi, "o"],
         "alias_data": ["jmp:.Lskip", "L:t1_%d" % mi, "L:t2_%d" % mi, "d:1", "L:.Lskip", "o"],
     }
     if name.startswith("jmp:"):
